@@ -38,6 +38,13 @@ RULE = ("retrospective and prospective runs of the real script over a fake pipel
 
 M = 2147483647
 KNOWN_SIG = "C19:prospective-marker-first"
+# `cfg["late"]` files published AFTER screen_metadata.json by the two `retrospective` workflows: in
+# RUN_RETROSPECTIVE_STEP, EVALUATE_MODEL / ANALYZE_MODEL_EVALUATION are not upstream of REVEAL_PLATE -> EXTRACT_SCREEN_METADATA,
+# so their outputs can be published after the completion marker.  No glob of the script matches them; the Lean model's
+# pipeline run ends at the marker (`pubs` = publications up to the marker) and does not contain them.  The harness
+# validates that abstraction: the real script runs with them (every publication an interruption point), the model without,
+# and event trace + directory tree (these files ignored) must still agree.
+LATE_PREFIX = "late_model_evaluation"
 
 
 class Interrupt(BaseException):
@@ -215,6 +222,8 @@ def show_tree(outdir):
                 return "unexpected entries in %s/%s" % (itn, pn)
             files = []
             for fn in os.listdir(os.path.join(pp, subs[0])):
+                if fn.startswith(LATE_PREFIX):
+                    continue          # invisible to every glob of the script and not part of the model (see `late`)
                 k = filename_kind(fn)
                 if k is None:
                     return "unexpected file %s" % fn
@@ -385,6 +394,9 @@ class Run:
         self.status = None
         self.tree = None
         self.done_steps = set()   # every step completed so far (earlier crash-free process runs included)
+        self.modelled_done = False
+        self.late_published = 0
+        self.late_window = False  # an interruption hit after the marker, before the last invisible late output
         self.pre_done = set()     # ... by the crash-free process runs executed first
 
     def on_remove(self, path):
@@ -461,6 +473,13 @@ class Run:
         self.launches[-1][2] = True
         self.done_steps.add((st[0], st[1]))
         self.current_launch = None
+        if l["wf"] in (0, 1):
+            self.modelled_done = True     # from here on the model's invocation is over
+            for c in range(self.cfg.get("late", 0)):
+                self.gate.tick()
+                with open(os.path.join(sub, "%s%d.dat" % (LATE_PREFIX, c)), "w") as f:
+                    f.write("0\n")
+                self.late_published += 1
 
     # -- driving -------------------------------------------------------------------------------------
     def go(self, max_invocations=None):
@@ -493,6 +512,7 @@ class Run:
                     g.count = 0
                     g.limit = budget
                     g.active = True
+                    self.modelled_done = False
                     try:
                         again = step(output_dir=self.outdir, input_screen=self.screen, extra_args=[], batch_size=cfg["B"])
                         outcome = ("again",) if again else ("halt",)
@@ -508,6 +528,14 @@ class Run:
                     finally:
                         g.active = False
                     self.segments[-1] += g.count
+                    if outcome[0] == "crash" and self.modelled_done:
+                        # interrupted among the invisible late outputs: for the model this call was not interrupted
+                        self.late_window = True
+                        self.hit_after_outdir = True
+                        self.sched.append("n")
+                        budget = pending.pop(0) if pending else None
+                        self.segments.append(0)
+                        continue
                     if outcome[0] == "crash":
                         self.sched.append(g.count)
                         if os.path.isdir(self.outdir):
@@ -670,9 +698,10 @@ def signature(run, finding):
 
 
 def describe(cfg):
-    return "%s B=%d P=%d chains=%d chunks=%d order=%d%s" % (
+    return "%s B=%d P=%d chains=%d chunks=%d order=%d%s%s" % (
         "retrospective" if cfg["mode"] == "r" else "prospective", cfg["B"], cfg["P"], cfg["nch"], cfg["nck"], cfg["variant"],
-        (" marker-first(as main.nf)" if cfg["mfirst"] else " marker-last(hypothetical workflow)") if cfg["mode"] == "p" else "")
+        (" marker-first(as main.nf)" if cfg["mfirst"] else " marker-last(hypothetical workflow)") if cfg["mode"] == "p" else "",
+        " late-outputs=%d" % cfg["late"] if cfg.get("late") else "")
 
 
 def run_case(case, workdir, ref_cache=None):
@@ -819,7 +848,7 @@ def configs(ctx):
         for P in Ps:
             for extra in ((0,) if quick or P > 4 else (0, 1, 2)):
                 cfg = {"mode": "r", "B": B, "P": P, "nch": 2 if P < 7 else 1, "nck": 2 if P < 5 else 1,
-                       "variant": (v + extra) % 3, "mfirst": False}
+                       "variant": (v + extra) % 3, "mfirst": False, "late": (0, 2, 1)[(v + B + extra) % 3]}
                 out.append((cfg, 0, (not quick) or P <= (3 if B < 4 else 2)))
             v += 1
         for mfirst in (True, False):
@@ -828,7 +857,7 @@ def configs(ctx):
                 out.append((cfg, pre, (not quick) or (pre == 0 and B <= 2)))
                 v += 1
     # two-digit iteration indices (iter_10, iter_11 sort after iter_9 only numerically): single interruptions
-    out.append(({"mode": "r", "B": 1, "P": 11, "nch": 1, "nck": 1, "variant": 0, "mfirst": False}, 0, False))
+    out.append(({"mode": "r", "B": 1, "P": 11, "nch": 1, "nck": 1, "variant": 0, "mfirst": False, "late": 1}, 0, False))
     out.append(({"mode": "p", "B": 2, "P": 3, "nch": 1, "nck": 1, "variant": 1, "mfirst": False}, 10, False))
     if not quick:
         out.append(({"mode": "r", "B": 2, "P": 22, "nch": 1, "nck": 1, "variant": 2, "mfirst": False}, 0, False))
@@ -846,7 +875,8 @@ def explore(cfg, pre, pairs, workdir):
         run, ref, findings = run_case(case, workdir, cache)
         results.append({"case": case, "line": run.driver_line(), "observed": run.observed(), "findings": findings,
                         "sig": [signature(run, f) for f in findings], "nontrivial": run.hit_after_outdir,
-                        "segments": run.segments, "window": run.in_window})
+                        "segments": run.segments, "window": run.in_window, "late_window": run.late_window,
+                        "late_lost": ref.late_published - run.late_published if run.status == "ok" else 0})
         return run, ref
 
     def new_failures():
@@ -902,6 +932,10 @@ def run(ctx, res):
                 res.count("batch.%d" % cfg["B"])
                 if r["window"]:
                     res.count("interruption inside the prospective marker window")
+                if r["late_window"]:
+                    res.count("interruption after the marker, among the invisible late outputs (model evaluation)")
+                if r["late_lost"] > 0:
+                    res.count("runs whose final directory lacks a late output of a completed step (observation, outside the property)")
                 if r["nontrivial"]:
                     res.nontrivial.add((json.dumps(cfg, sort_keys=True), pre, tuple(r["case"]["crashes"])))
                 if nc and r["nontrivial"]:
